@@ -11,3 +11,9 @@ pub fn std_rs_new() -> std::hash::RandomState { unsafe { std::mem::transmute::<[
 pub fn ahash_rs_new() -> ahash::RandomState { ahash::RandomState::with_seeds(1, 2, 3, 4) }
 pub fn fmt_stub(_a: std::fmt::Arguments<'_>) -> String { String::new() }
 pub fn regex_new_stub(_p: &str) -> Result<regex::Regex, regex::Error> { Err(regex::Error::Syntax(String::new())) }
+
+// dashmap's own RawRwLock slow paths (private module path): same treatment as parking_lot's
+pub fn dm_lock_excl_slow(_s: &dashmap::RawRwLock) { kani::assume(false); }
+pub fn dm_unlock_excl_slow(_s: &dashmap::RawRwLock) { kani::assume(false); }
+pub fn dm_lock_shared_slow(_s: &dashmap::RawRwLock) { kani::assume(false); }
+pub fn dm_unlock_shared_slow(_s: &dashmap::RawRwLock) { kani::assume(false); }
